@@ -89,6 +89,21 @@ theorem check_sound {c : CodeBody} (h : check c = true) :
     let ⟨b, t, h1, h2, h3, h4, _, _⟩ := checkCfg_sound (c := c) h i A hr
     ⟨b, t, h1, h2, h3, h4⟩
 
+/-- **A value-returning body returns a value on every reachable path**: a body that passes `checkFn true` has no
+    `return` without a value in any block that some execution path reaches. -/
+theorem returns_value_on_every_path {c : CodeBody} (h : checkFn true c = true) :
+    ∀ (i : Nat) (A : List Nat), Reaches c i A → ∀ b, c.blocks[i]? = some b → b.terminator ≠ some (.ret .void) := by
+  intro i A hr b hb
+  simp only [checkFn, Bool.and_eq_true, Bool.not_true, Bool.false_or] at h
+  have hri := (reaches_inv h.1 hr).1
+  have := retsOk_get c.blocks 0 h.2 i b hb (by simpa using hri)
+  exact this
+
+/-- … and satisfies everything `check_sound` gives -/
+theorem checkFn_check {v : Bool} {c : CodeBody} (h : checkFn v c = true) : check c = true := by
+  simp only [checkFn, Bool.and_eq_true] at h
+  exact h.1
+
 /-- The full statement about the builder (for ALL programs): not proved; decided per output by `check`. -/
 def build_passes_check_full_statement : Prop :=
   ∀ (ctx : Ctx) (callback : Bool) (p : Program) (code : CodeBody),
